@@ -323,14 +323,23 @@ pub struct Checked {
     pub violations: Vec<(String, String)>,
     pub compared: u64,
     pub ran: bool,
+    pub heavy: bool,
 }
 
 pub fn check(c: &MCase) -> Checked {
-    let mut res = Checked { violations: vec![], compared: 0, ran: false };
+    let mut res = Checked { violations: vec![], compared: 0, ran: false, heavy: false };
     let inp = input_fn(c.input_seed, true);
     let path = c.path.as_ref().map(PathBuf::from);
     for b in [Backend::Vm, Backend::Wasm] {
         let a = run_program(b, &c.original, c.scheduler, c.n, &inp, false, path.clone());
+        // a program that exhausts the VM's logical instruction budget would run unbounded on
+        // WASM (no budget there): not a case for this oracle
+        if let Err(RunError::DspPanic(_, p)) | Err(RunError::Build(crate::run::BuildError::Panicked(_, p))) = &a
+            && p.is_verif_tag() == Some("VERIF-STEPS")
+        {
+            res.heavy = true;
+            return res;
+        }
         let t = run_program(b, &c.transformed, c.scheduler, c.n, &inp, false, path.clone());
         match (&a, &t) {
             (Ok(x), Ok(y)) => {
@@ -377,6 +386,9 @@ fn exec(c: &MCase, idx: usize, out: &mut Out) -> bool {
     let r = check(c);
     out.count(&format!("transformation:{}", c.transformation), 1);
     out.count("output_words_compared", r.compared);
+    if r.heavy {
+        out.count("heavy_programs_skipped", 1);
+    }
     for (sig, detail) in &r.violations {
         let key = format!("violations:{sig}");
         let seen = out.counters.get(&key).copied().unwrap_or(0);
